@@ -1,7 +1,37 @@
-import Driver.Util
-open Lean
+import Driver.TyJson
+import Heph.Model.Inst
+/-! ops of C08/C17: `inst.arg_variance` (candidate list of `_get_type_arg_variance`) … -/
+open Lean Heph Heph.Inst
 namespace Driver.Inst
 
-def handle : Handler := fun _ _ => none
+/-- `"vc"`: `null` (variance_choices is None) or `[[keyIdx, canVariant, canContravariant], …]` -/
+def parseVChoices (tbl : Array Ty) (j : Json) (k : String) : Except String (Option VChoices) := do
+  let v := j.getObjValD k
+  if v.isNull then pure none else
+    let a ← v.getArr?
+    let l ← a.toList.mapM fun e => do
+      let p ← e.getArr?
+      if p.size != 3 then throw "variance choice must be [key, can_variant, can_contravariant]"
+      let i ← p[0]!.getNat?
+      match tbl[i]? with
+      | some t => pure (t, ((← p[1]!.getBool?), (← p[2]!.getBool?)))
+      | none => throw s!"type index {i} out of range"
+    pure (some l)
+
+def parseDis (j : Json) : Except String Dis := do
+  match ← getNatList j "dis" with
+  | [a, b] => pure ⟨a != 0, b != 0⟩
+  | _ => throw "dis must be 2 ints"
+
+def boolList (j : Json) (k : String) : Except String (List Bool) := do
+  (← getArr j k).toList.mapM fun x => x.getBool?
+
+def handle : Handler := fun op j =>
+  match op with
+  | "inst.arg_variance" => some (do
+      let tbl ← parseTable j
+      let tparam ← tyAt tbl j "tparam"
+      pure (res (ofNatList (argVariance (← parseDis j) tparam (← parseVChoices tbl j "vc") (← boolList j "later")))))
+  | _ => none
 
 end Driver.Inst
